@@ -7,7 +7,17 @@ import ScriggoV.Model.CancelCode
                b<t> native function calling the Scriggo function at t once, B<t> again and again
       events = `,`-separated: s<i> step of VM i (operation not ready), S<i> step (ready),
                c cancel, w watcher
-      answer = `ok <none|ctxErr|own> <live VMs>` -/
+      answer = `ok <none|ctxErr|own> <live VMs>`
+  `flow`                      the opcodes that are not forward-only with their classes, and those
+      among them whose dispatch does not read the flag
+  `dispatch <placement> <prog> <choices>`   runs the instruction loop of Model/CancelDispatch.lean
+      with the flag set;
+      placement = `code` (as extracted) | `head` | `,`-separated classes (next skip jump call ret
+               iterate leave) on whose dispatch the flag is read
+      prog   = function bodies separated by `;`, instructions by `,`: p plain, i cond (If),
+               j<t>[:<t>…] jump, c<f> call, t<f> tail call, r return, R range, k<t> continue/break
+      choices = digits, one per turn of the loop (cycled up to 240 turns)
+      answer = `ok <stopped|ended|running> <instructions dispatched without a look at the flag>` -/
 namespace ScriggoV.Drv.C11
 open ScriggoV.Cancel
 
@@ -38,6 +48,44 @@ def parseEv (s : String) : Option Ev :=
 def parseList {α : Type} (f : String → Option α) (s : String) : Option (List α) :=
   if s == "-" then some [] else (s.splitOn ",").mapM f
 
+open Dispatch in
+def parseDInstr (s : String) : Option DInstr :=
+  match s.toList with
+  | ['p'] => some .plain
+  | ['i'] => some .cond
+  | 'j' :: t => (((String.ofList t).splitOn ":").mapM String.toNat?).map .jump
+  | 'c' :: t => (String.ofList t).toNat?.map .call
+  | 't' :: t => (String.ofList t).toNat?.map .tail
+  | ['r'] => some .ret
+  | ['R'] => some .range
+  | 'k' :: t => (String.ofList t).toNat?.map .leave
+  | _ => none
+
+open Dispatch in
+def parseFlow : String → Option Flow
+  | "next" => some .next
+  | "skip" => some .skip
+  | "jump" => some .jump
+  | "call" => some .call
+  | "ret" => some .ret
+  | "iterate" => some .iterate
+  | "leave" => some .leave
+  | _ => none
+
+open Dispatch in
+def showFlow : Flow → String
+  | .next => "next" | .skip => "skip" | .jump => "jump" | .call => "call" | .ret => "ret"
+  | .iterate => "iterate" | .leave => "leave"
+
+open Dispatch in
+def parsePlacement (s : String) : Option (Flow → Bool) :=
+  if s == "code" then some placementOfCode
+  else if s == "head" then some headPlacement
+  else (parseList parseFlow s).map onlyAt
+
+def cycleTo (n : Nat) (l : List Nat) : List Nat :=
+  if l.isEmpty then List.replicate n 0 else (List.range n).map (fun i => (l[i % l.length]?).getD 0)
+
 def showResult : Option Outcome → String
   | none => "none"
   | some .ctxErr => "ctxErr"
@@ -53,6 +101,23 @@ def handle : List String → Option String
     let es ← parseList parseEv evs
     let s := (init p).run factsOfCode es
     pure s!"ok {showResult s.result} {(s.vms.filter live).length}"
+  | ["flow"] =>
+    let back := ScriggoV.Gen.Blocking.opFlow.filter (fun o => !(flowOf o).forward)
+    let shown := ",".intercalate (back.map (fun o => s!"{o.op}:{showFlow (flowOf o)}"))
+    let un := ",".intercalate unobservedBackEdges
+    pure s!"ok sites={",".intercalate (ScriggoV.Gen.Blocking.doneCheckSites.map (fun s => s.replace " " "_"))} back={shown} unobserved={if un == "" then "-" else un}"
+  | ["dispatch", pl, prog, chs] => do
+    let P ← parsePlacement pl
+    let p ← (prog.splitOn ";").mapM (parseList parseDInstr)
+    let cs ← chs.toList.mapM (fun c => if c.isDigit then some (c.toNat - 48) else none)
+    let choices := cycleTo 240 cs
+    let s0 : Dispatch.DState := ⟨0, 0, []⟩
+    let n := Dispatch.unobserved P p s0 choices
+    let r := match Dispatch.runFlag P p s0 choices with
+      | .running _ => "running"
+      | .stopped => "stopped"
+      | .ended => "ended"
+    pure s!"ok {r} {n}"
   | _ => none
 
 end ScriggoV.Drv.C11
